@@ -63,3 +63,74 @@ func vC05Iter(n int) {
 	}
 	vCover("C05.iter.reach")
 }
+
+// C05/C01/C12 at the heap manager, every schedule: the container goroutine's part of two consecutive render cycles
+// (sync, ordered iteration, push everything back, sync, ordered iteration) against the real heapManager.run,
+// with a request queue shorter than the number of bars (push-backs travel in detached goroutines). Whatever the
+// interleaving of the manager and the detached senders, the second cycle must see every bar (C05) and every bar
+// it hands out must be a member of the width-sync column started for that cycle (C12; otherwise the bar's
+// decorator waits for ever and the cycle never ends, C01). Whole schedule symbolic.
+func vhC05Cycle() {
+	vUnwind(6)
+	q := vParam("queueLen")
+	m := newHeapManager(q)
+	go m.run()
+	var bars [2]*Bar
+	var chans [2]chan int
+	for i := 0; i < 2; i++ {
+		d := vNewSync(vMakeText(i+1, 0))
+		ps := pState{idCount: i}
+		bs := ps.makeBarState(10, NopStyle().Build(), PrependDecorators(d))
+		b := vBarFor(bs)
+		// the state is published: the manager reads the sync table without a bar goroutine
+		b.bs = bs
+		close(b.bsOk)
+		bars[i] = b
+		chans[i], _ = d.Sync()
+		m.push(b, true)
+	}
+	for cycle := 0; cycle < 2; cycle++ {
+		drop := make(chan struct{})
+		iter, iterPop := make(chan *Bar), make(chan *Bar)
+		m.sync(drop)
+		m.iter(drop, iter, iterPop)
+		for range iter {
+		}
+		var popped [2]*Bar
+		n := 0
+		for b := range iterPop {
+			vAssert(n < 2 && (n == 0 || popped[0] != b), "C05.cycle.no-bar-handed-out-twice")
+			if n < 2 {
+				popped[n] = b
+			}
+			n++
+		}
+		if cycle == 1 {
+			vAssert(n == 2, "C05.cycle.second-cycle-sees-every-bar")
+		}
+		// every bar handed out takes part in the width exchange of this cycle (as WC.Format does)
+		done := make(chan int)
+		for i := 0; i < n && i < 2; i++ {
+			ch := chans[0]
+			if popped[i] == bars[1] {
+				ch = chans[1]
+			}
+			go func() {
+				ch <- 1
+				done <- <-ch
+			}()
+		}
+		for i := 0; i < n && i < 2; i++ {
+			<-done
+		}
+		close(drop)
+		for i := 0; i < n && i < 2; i++ {
+			m.push(popped[i], false)
+		}
+	}
+	out := make(chan interface{}, 1)
+	m.end(out)
+	rest := (<-out).([]*Bar)
+	vAssert(len(rest) == 2, "C05.cycle.both-bars-still-in-the-container")
+	vCover("C05.cycle.reach")
+}
